@@ -315,11 +315,18 @@ func (g *aggregate) add(r Result) {
 }
 
 var numRe = regexp.MustCompile(`[0-9]+`)
+var brRe = regexp.MustCompile(`\[[^\]]*\]`)
+var cidRe = regexp.MustCompile(`\b[bQ][a-zA-Z2-7]{40,}\b`)
 
 func sigKey(v Violation) string {
 	m := v.Msg
 	if i := strings.Index(m, "\n"); i >= 0 {
 		m = m[:i]
+	}
+	m = brRe.ReplaceAllString(m, "[..]")
+	m = cidRe.ReplaceAllString(m, "CID")
+	if len(m) > 160 {
+		m = m[:160]
 	}
 	return v.Oracle + ": " + numRe.ReplaceAllString(m, "N")
 }
@@ -839,6 +846,7 @@ func check(prop, tier string) int {
 	head := repoHead()
 	gov := goVersion()
 	knownPrinted := map[string]bool{}
+	postKeys := map[string]bool{}
 	for _, k := range keys {
 		g := groups[k]
 		v := g.best.Viol[0]
@@ -877,6 +885,11 @@ func check(prop, tier string) int {
 			}
 		}
 		v = res.Viol[0]
+		if postKeys[sigKey(v)] {
+			unknown--
+			continue
+		}
+		postKeys[sigKey(v)] = true
 		name := fmt.Sprintf("%s-%s-%d", prop, sanitize(v.Oracle), res.Seed)
 		if res.Case >= 0 {
 			name += fmt.Sprintf("-case%d", res.Case)
